@@ -685,6 +685,8 @@ class Interp(ExprMixin):
     def s_If(self, s, st):
         tv = self.eval(s.test, st)
         t = truth(tv)
+        if t is None:
+            t = implied(tv, st.conds)      # decided by the conditions this path already took
         if t is True:
             return self.exec_block(s.body, [st])
         if t is False:
@@ -852,6 +854,123 @@ def _known_mapping(v):
                 return None
             out[pr.items[0].value] = pr.items[1]
     return out
+
+
+_IMPURE = ('m:', 'call:', 'callv', 'ext:', 'new:', 'mut:')
+
+
+def _pure(v):
+    """No atom of v can denote different values at two evaluations (no calls, methods, random draws)."""
+    for a in nf.value_atoms(v):
+        if a[0] in ('fresh', 'loop', 'iter'):
+            return False
+        if a[0] == 'app' and (a[1].startswith(_IMPURE) or 'rand' in a[1] or 'uniform' in a[1] or 'normal' in a[1]
+                              or 'poisson' in a[1] or a[1] in ('next', 'iter', 'input', 'time')):
+            return False
+    return True
+
+
+def _literals(c, pol, out):
+    """Flatten a taken condition into (term, truth) literals: and(..)=True and or(..)=False distribute."""
+    a = c.single_atom() if isinstance(c, Poly) else None
+    if a is not None and a[0] == 'app' and a[1] == 'not' and isinstance(a[2][0], Poly):
+        return _literals(a[2][0], not pol, out)
+    if a is not None and a[0] == 'app' and ((a[1] == 'and' and pol) or (a[1] == 'or' and not pol)):
+        for x in a[2]:
+            if isinstance(x, Poly):
+                _literals(x, pol, out)
+        return
+    out.append((c, pol))
+
+
+def _as_bound(c):
+    """cond `x op const` -> (x, op, const) with op in lt/le/gt/ge/eq/ne, else None"""
+    a = c.single_atom() if isinstance(c, Poly) else None
+    if a is None or a[0] != 'app' or a[1] not in ('lt', 'le', 'eq', 'ne') or len(a[2]) != 2:
+        return None
+    x, y = a[2]
+    if not (isinstance(x, Poly) and isinstance(y, Poly)):
+        return None
+    cx, cy = x.const_value(), y.const_value()
+    if cy is not None and cx is None:
+        return x, a[1], cy
+    if cx is not None and cy is None:
+        return y, {'lt': 'gt', 'le': 'ge', 'eq': 'eq', 'ne': 'ne'}[a[1]], cx
+    return None
+
+
+_NEG = {'lt': 'ge', 'le': 'gt', 'gt': 'le', 'ge': 'lt', 'eq': 'ne', 'ne': 'eq'}
+
+
+def implied(tv, conds):
+    """Truth of condition ``tv`` as far as the conditions already taken on this path decide it
+    (same pure test repeated, or a comparison with a constant decided by earlier comparisons of the
+    same term with constants); None when they do not."""
+    if not isinstance(tv, Poly) or not conds:
+        return None
+    a = tv.single_atom()
+    if a is not None and a[0] == 'app' and a[1] == 'not' and isinstance(a[2][0], Poly):
+        r = implied(a[2][0], conds)
+        return None if r is None else not r
+    if a is not None and a[0] == 'app' and a[1] in ('and', 'or') and all(isinstance(x, Poly) for x in a[2]):
+        rs = [implied(x, conds) for x in a[2]]
+        if a[1] == 'and':
+            return False if any(r is False for r in rs) else (True if all(r is True for r in rs) else None)
+        return True if any(r is True for r in rs) else (False if all(r is False for r in rs) else None)
+    if not _pure(tv):
+        return None
+    lits = []
+    for c, pol, _ in conds:
+        _literals(c, pol, lits)
+    for c, pol in lits:
+        if c == tv:
+            return pol
+    b = _as_bound(tv)
+    if b is None:
+        return None
+    x, op, cst = b
+    lo, lo_s, hi, hi_s, excl = None, False, None, False, set()
+    for c, pol in lits:
+        bb = _as_bound(c)
+        if bb is None or bb[0] != x:
+            continue
+        o, k = (bb[1] if pol else _NEG[bb[1]]), bb[2]
+        if o == 'eq':
+            if lo is None or k > lo or (k == lo and lo_s):
+                lo, lo_s = k, False
+            if hi is None or k < hi or (k == hi and hi_s):
+                hi, hi_s = k, False
+        elif o == 'ne':
+            excl.add(k)
+        elif o in ('gt', 'ge'):
+            if lo is None or k > lo or (k == lo and o == 'gt'):
+                lo, lo_s = k, o == 'gt'
+        else:
+            if hi is None or k < hi or (k == hi and o == 'lt'):
+                hi, hi_s = k, o == 'lt'
+
+    def decide(o):
+        if o == 'lt':
+            if hi is not None and (hi < cst or (hi == cst and hi_s)):
+                return True
+            if lo is not None and lo >= cst:
+                return False
+        elif o == 'le':
+            if hi is not None and hi <= cst:
+                return True
+            if lo is not None and (lo > cst or (lo == cst and lo_s)):
+                return False
+        elif o == 'eq':
+            if lo is not None and hi is not None and lo == hi == cst and not lo_s and not hi_s:
+                return True
+            if cst in excl or (lo is not None and (cst < lo or (cst == lo and lo_s))) or \
+                    (hi is not None and (cst > hi or (cst == hi and hi_s))):
+                return False
+        return None
+    if op in ('lt', 'le', 'eq'):
+        return decide(op)
+    r = decide(_NEG[op])
+    return None if r is None else not r
 
 
 class _Raised(Exception):
